@@ -72,6 +72,12 @@ theorem inv_step (H : Hash) (now : Int) (s : Store) (op : Op) (hs : VersionInv H
     | none =>
       have := computed_version H now p
       exact inv_set H s _ _ hs ⟨this.1, by rw [this.2]; rfl⟩
+  | createGen p g =>
+    simp only [step]
+    split
+    · exact hs
+    · have := computed_version H now { p with id := g }
+      exact inv_set H s _ _ hs ⟨this.1, by rw [this.2]; rfl⟩
   | update p mask version =>
     simp only [step]
     split
